@@ -206,6 +206,10 @@ def encode_op(op):
         for ln in lines:
             flat += [len(ln)] + [ord(c) for c in ln]
         return [76, dst, 0 if kind == 'snap' else 1, int(d), ord(m), *(_o(None if delim is None else ord(delim))), int(keys)] + flat
+    if k in ('rtsnap', 'rtint'):
+        return [80 if k == 'rtsnap' else 81, op[1], op[2]]
+    if k == 'rtnl':
+        return [82, op[1], op[2], int(op[3])]
     if k == 'wsnaptext':
         return [78, op[1], ord(op[2])]
     if k == 'winttext':
@@ -235,7 +239,7 @@ def decode_res(op, ints, directed_of):
         return None
     if k == 'streamchk':
         return (bool(ints[0]), bool(ints[1]))
-    if k in ('add', 'bulk', 'slice', 'todir', 'toundir', 'rsnap', 'rint', 'nlg', 'rtext'):
+    if k in ('add', 'bulk', 'slice', 'todir', 'toundir', 'rsnap', 'rint', 'nlg', 'rtext', 'rtsnap', 'rtint', 'rtnl'):
         return OUTCOMES[ints[0]]
     if k == 'wsnap':
         return sorted(tuple(ints[i:i + 3]) for i in range(0, len(ints), 3))
@@ -367,6 +371,8 @@ def directed_map(prog):
     for op in prog:
         if op[0] == 'new':
             d[op[1]] = bool(op[2])
+        elif op[0] in ('rtsnap', 'rtint', 'rtnl'):
+            d[op[2]] = d.get(op[1], False)
         elif op[0] == 'slice':
             d[op[2]] = d.get(op[1], False)
         elif op[0] == 'todir':
@@ -491,7 +497,9 @@ class Impl:
         if op[1] not in self.R:
             return 'NOREG'
         if k in ('wsnap', 'wint', 'nld', 'wsnaptext', 'winttext'):
-            return self.step_io_write(op)  # the register was never produced (its constructor raised): nothing to observe
+            return self.step_io_write(op)
+        if k in ('rtsnap', 'rtint', 'rtnl'):
+            return self.step_io_rt(op)  # the register was never produced (its constructor raised): nothing to observe
         G = self.g(op[1])
         d = G.is_directed()
         if k == 'poke':
@@ -804,6 +812,43 @@ def _io_methods():
         except Exception as x:
             return _exc_name(x)
 
+    def step_io_rt(self, op):
+        D = dn()
+        I = self.ids
+        k = op[0]
+        G = self.g(op[1])
+        fmt = op[3] if k != 'rtnl' and len(op) > 3 else {}
+        try:
+            if k == 'rtnl':
+                from dynetx.readwrite import json_graph
+                data = json.loads(json.dumps(json_graph.node_link_data(G)))
+                if I.family == 'tuple':
+                    return 'SKIP'
+                self.R[op[2]] = json_graph.node_link_graph(data, directed=bool(op[3]))
+                return 'Done'
+            delim, enc, target = fmt.get('delim', ' '), fmt.get('enc', 'utf-8'), fmt.get('target', 'plain')
+            ntype = {'int': int, 'str': str}.get(I.family)
+            wfn = D.write_snapshots if k == 'rtsnap' else D.write_interactions
+            rfn = D.read_snapshots if k == 'rtsnap' else D.read_interactions
+            kw = dict(directed=G.is_directed(), nodetype=ntype, timestamptype=int, delimiter=delim, encoding=enc)
+            if target == 'fileobj':
+                buf = io.BytesIO()
+                wfn(G, buf, delimiter=delim, encoding=enc)
+                H = rfn(io.BytesIO(buf.getvalue()), **kw)
+            else:
+                path = os.path.join(workdir(), 'rt' + {'plain': '.txt', 'gz': '.gz', 'bz2': '.bz2'}[target])
+                try:
+                    wfn(G, path, delimiter=delim, encoding=enc)
+                    H = rfn(path, **kw)
+                finally:
+                    if os.path.exists(path):
+                        os.remove(path)
+            self.R[op[2]] = H
+            return 'Done'
+        except Exception as x:
+            return _exc_name(x)
+
+    Impl.step_io_rt = step_io_rt
     Impl.step_io_write = step_io_write
     Impl.step_io_read = step_io_read
 
